@@ -180,11 +180,15 @@ class AsyncSimpleClient:
         additional list elements.
         """
         while not self.input_buffer:
-            try:
-                await asyncio.wait_for(self.connected_event.wait(),
-                                       timeout=timeout)
-            except asyncio.TimeoutError:  # pragma: no cover
-                raise TimeoutError()
+            if not self.connected_event.is_set():
+                # (not waited for when it is already set: with a timeout of
+                # zero wait_for() would time out without looking at it, and a
+                # polling application would never see DisconnectedError)
+                try:
+                    await asyncio.wait_for(self.connected_event.wait(),
+                                           timeout=timeout)
+                except asyncio.TimeoutError:  # pragma: no cover
+                    raise TimeoutError()
             if not self.connected:
                 if self.input_buffer:
                     # events that arrived before the connection ended are
